@@ -77,6 +77,8 @@ Inductive algo :=
 | AClosePositionsAfterDates (key : nat)
 | ARollPositionsAfterDates (key : nat)
 | AReplayTransactions (key : nat)
+| AUpdateRisk (measure : nat) (history : nat)
+| AHedgeRisk1 (measure : nat)     (* HedgeRisks([measure]) with exactly one selected instrument (1x1 solve) *)
 | AUserAdjust (amount : t) (flow upd : bool)   (* a user-written algo: target.adjust(amount, update=upd, flow=flow) *)
 | AMock (id : nat) (results : list bool).    (* test double: logs its call, returns scripted results (True when exhausted) *)
 
@@ -125,7 +127,8 @@ Inductive adata :=
 | DFrame (idx : list Z) (cols : frame)                     (* DataFrame / Series with its own index *)
 | DDates (l : list (nat * Z))                              (* close_dates: security -> date *)
 | DRoll (l : list (nat * (Z * nat * t)))                   (* roll_data: security -> (date, target, factor) *)
-| DTrans (l : list (Z * nat * t * t)).                     (* transactions: (date, security, quantity, price) *)
+| DTrans (l : list (Z * nat * t * t))                      (* transactions: (date, security, quantity, price) *)
+| DRisk (l : list (nat * (list Z * frame))).               (* unit_risk: measure -> frame with its own index *)
 
 Record env := mkEnv { e_dates : list Z; e_adata : list (nat * adata) }.
 
@@ -360,6 +363,45 @@ Fixpoint or_go (l : list algo) (res : bool) (tr : tree) : result (list algo * bo
 End StackGo.
 
 Definition is_always (x : algo) : bool := match x with AAlways _ _ => true | _ => false end.
+
+(* UpdateRisk._set_risk_recursive: security risk = unit risk x position x multiplier at the root's current row
+   (0 when flat or when the security has no unit-risk column), strategy risk = sum over its children;
+   history rows are written for strategies at depth < history *)
+Definition unit_risk_of (fr : list Z * frame) (rnow : Z) (k : nat) : result t :=
+  match index_of rnow (fst fr) with
+  | None => Err EKey
+  | Some r =>
+    match lookup k (snd fr) with
+    | Some col => match nth r col None with Some u => Ok u | None => Err ENanArith end
+    | None => Ok 0
+    end
+  end.
+
+Fixpoint set_risk (m : nat) (hist : nat) (fr : list Z * frame) (rnow : Z) (depth : nat) (n : node) {struct n}
+  : result (node * t) :=
+  match n with
+  | NSec s =>
+    u <- unit_risk_of fr rnow (s_id s) ;;
+    let r := if is_zero (s_pos s) then 0 else u * s_pos s * s_mult s in
+    if Nat.ltb depth hist then Err EOther      (* per-security history frames are not modelled *)
+    else Ok (NSec (set_s_risk (set_assoc m r (s_risk s)) s), r)
+  | NStrat g kids lz paper =>
+    let fix go (ks : list node) (acc : t) : result (list node * t) :=
+      match ks with
+      | [] => Ok ([], acc)
+      | c :: ks' =>
+        '(c', rc) <- set_risk m hist fr rnow (S depth) c ;;
+        '(ks'', acc') <- go ks' (acc + rc) ;;
+        Ok (c' :: ks'', acc')
+      end in
+    '(kids', r) <- go kids 0 ;;
+    let g := set_g_risk (set_assoc m r (g_risk g)) g in
+    let g := if Nat.ltb depth hist then
+               let col := match lookup m (g_risks g) with Some c => c | None => repeat None (g_nrows g) end in
+               set_g_risks (set_assoc m (upd (row_of (g_now g)) (Some r) col) (g_risks g)) g
+             else g in
+    Ok (NStrat g kids' lz paper, r)
+  end.
 
 Section RunAlgo.
 Variable e : env.
@@ -873,6 +915,56 @@ Fixpoint run_algo (a : algo) (tr : tree) {struct a} : result (algo * bool * tree
       '(g, _) <- get_strat p tr ;;
       tr <- root_update paper_step (g_now g) tr ;;
       same true tr
+    | _ => Err EKey
+    end
+  | AUpdateRisk m hist =>
+    match lookup 0%nat (e_adata e) with           (* key 0 is reserved for "unit_risk" *)
+    | Some (DRisk frames) =>
+      match lookup m frames with
+      | None => Err EKey
+      | Some fr =>
+        match root_now tr with
+        | None => Err EKey
+        | Some ri =>
+          '(n, _, _) <- at_path p (fun _ n => '(n', _) <- set_risk m hist fr (ts_of e ri) 0 n ;; Ok (n', None, false))
+                                None (fst tr) ;;
+          same true (n, snd tr)
+        end
+      end
+    | _ => Err EKey
+    end
+  | AHedgeRisk1 m =>
+    match get_node p (fst tr) with
+    | Some (NStrat g kids lz _) =>
+      i <- now_row g ;;
+      match t_selected (a_temp (g_algo g)) with
+      | Some [k] =>
+        match lookup m (g_risk g) with
+        | None => Err EValue                      (* "measure ... not set on target" *)
+        | Some r =>
+          match lookup 0%nat (e_adata e) with
+          | Some (DRisk frames) =>
+            match lookup m frames with
+            | None => Err EValue
+            | Some fr =>
+              u <- unit_risk_of fr (ts_of e i) k ;;
+              let mult := match find_kid k kids with
+                          | Some (NSec s) => s_mult s
+                          | Some _ => 1
+                          | None => match fst (pop_lazy k lz) with Some l => lz_mult l | None => 1 end
+                          end in
+              let j := u * mult in
+              if j =? 0 then Err ELinAlg else
+              (* numpy: inv([[j]]) = [[1/j]]; notionals = inv @ (-risk) *)
+              let q := (1 / j) * (- r) in
+              '(tr, _) <- apply_op paper_step (@OTransact N p q (Some k) true None) tr ;;
+              same true tr
+            end
+          | _ => Err EKey
+          end
+        end
+      | _ => Err EOther      (* only the one-instrument, one-measure solve is modelled *)
+      end
     | _ => Err EKey
     end
   | AUserAdjust amt flow upd =>
